@@ -39,11 +39,11 @@ ASSUMPTIONS = ["reference rasteriser/fold/decoder in vmon/refmodels/pianoroll.py
                "float results compared with 1e-9 (f8) / 1e-6 relative (f4 columns of the inverse)",
                "piano_range together with pitch_margin, negative onsets without silence removal, velocity 0, "
                "the offset column of index rows in onset mode and off-grid cells are left open by the statement"]
-MIN_HOOKS = {"_make_pianoroll": {"quick": 5000, "thorough": 60000},
-             "compute_pianoroll": {"quick": 5000, "thorough": 60000},
-             "compute_pitch_class_pianoroll": {"quick": 800, "thorough": 10000},
-             "pianoroll_to_notearray": {"quick": 800, "thorough": 10000}}
-MIN_NONTRIVIAL = {"quick": 1500, "thorough": 20000}
+MIN_HOOKS = {"_make_pianoroll": {"quick": 15000, "thorough": 150000},
+             "compute_pianoroll": {"quick": 15000, "thorough": 150000},
+             "compute_pitch_class_pianoroll": {"quick": 2000, "thorough": 20000},
+             "pianoroll_to_notearray": {"quick": 1500, "thorough": 15000}}
+MIN_NONTRIVIAL = {"quick": 4000, "thorough": 50000}
 WATCHDOG_S = {"quick": 900, "thorough": 7200}
 
 _hooks = {}
